@@ -294,6 +294,15 @@ def point_kernels(P, rep, rule="EXPR.point"):
                 qn = P.d(nd.get("callee")).get("qn", "")
                 if qn in ("WorldBuilder::FT::sin", "WorldBuilder::FT::cos") and len(nd["c"]) == 2:
                     return (sp.sin if qn.endswith("sin") else sp.cos)(B.sym(nd["c"][1]))
+            if nd.get("k") == "CXXMemberCallExpr" and nd["c"][0].get("k") == "MemberExpr" and len(nd["c"]) == 2:
+                # this->cheap_relative_distance_*(q): that member's own closed form is verified by this rule; use it
+                me = nd["c"][0]
+                onthis = not me.get("c") or sc(me["c"][0]).get("k") == "CXXThisExpr"
+                if onthis and qk is not None and astq.is_ref_to(nd["c"][1], qk):
+                    if me.get("n") == "cheap_relative_distance_cartesian":
+                        return cart2
+                    if me.get("n") == "cheap_relative_distance_spherical":
+                        return hav
             return None
 
         def choose(c):
